@@ -36,7 +36,9 @@ Inductive op :=
 | QMainUp (uparea : nat)            (* main_upstream(uparea): 0 = default *)
 | QStrahler (mask : nat)            (* stream_order('strahler', mask): 0 = no mask *)
 | QClassic (mask : nat)
-| QDistnc | QArea | QUparea (metric : bool) | QAccuflux (data : nat) | QBasins | QPathUp | QPathDown
+| QDistnc | QArea | QUparea (metric : bool) | QAccuflux (data : nat)
+| QStreamDist (mask : nat)          (* stream_distance(mask, unit='m'): reads the order and the transform, memoises nothing else *)
+| QBasins | QPathUp | QPathDown
 | MAddPits | MRepair (hasloops : bool) | MSetTransform | MOrder (m : method) | MDumpLoad.
 
 Definition upd_pit s v := {| raster := raster s; cacheon := cacheon s; ver := ver s; tver := tver s; s_pit := v; s_seq := s_seq s;
@@ -139,6 +141,7 @@ Definition step (s : state) (o : op) : state * tag :=
   | QArea => get_area s
   | QUparea m => get_uparea s m
   | QAccuflux d => let '(s1, t) := get_seq s in (s1, tjoin t (tg [] [] [d]))
+  | QStreamDist m => let '(s1, t) := get_seq s in (s1, tjoin t (tg [] [tver s] [m]))
   | QBasins => let '(s1, t1) := get_pit s in let '(s2, t2) := get_seq s1 in (s2, tjoin t1 t2)
   | QPathUp => get_main s
   | QPathDown => (s, tg [ver s] [] [])
